@@ -733,3 +733,7 @@ exfalso. unfold FR in Hpos. simpl in Hpos.
 assert (F2R (Float radix2 (Z.neg m) e) < 0) by now apply F2R_lt_0.
 lra.
 Qed.
+
+Print Assumptions fmul_spec.
+Print Assumptions f_round_nd_spec.
+Print Assumptions f_ceil_spec.
